@@ -1,14 +1,20 @@
 #!/bin/bash
-# Detection demonstration: apply each mutant patch to /repo, run the property's quick check,
-# expect exit 1 with a VIOLATION line, then revert. usage: selftest.sh [pattern]
+# Detection demonstration: for each mutant patch, a scratch worktree of /repo's HEAD gets the patch and
+# the property's quick check is run against it (VERIF_REPO / VERIF_SCRATCH: /repo and /verif's evidence
+# stay untouched); expect exit 1 with a VIOLATION line. usage: selftest.sh [pattern]
 cd "$(dirname "$0")"
 pat=${1:-}
 rc=0
+wt=/tmp/selftest_wt.$$
+sc=/tmp/selftest_out.$$
+cleanup() { git -C /repo worktree remove --force "$wt" >/dev/null 2>&1; rm -rf "$sc"; }
+trap cleanup EXIT
+git -C /repo worktree add --detach "$wt" HEAD >/dev/null 2>&1 || { echo "SELFTEST: cannot create worktree"; exit 2; }
 for p in mutants/*${pat}*.patch; do
   id=$(basename "$p" | cut -d_ -f1)
-  git -C /repo apply "$PWD/$p" || { echo "SELFTEST $p: patch does not apply"; rc=1; continue; }
-  out=$(timeout 1500 ./vcheck run "$id" --tier quick 2>&1); code=$?
-  git -C /repo checkout -- . ; git -C /repo clean -fdq
+  git -C "$wt" checkout -q -- . ; git -C "$wt" clean -fdq
+  git -C "$wt" apply "$PWD/$p" || { echo "SELFTEST $p: patch does not apply"; rc=1; continue; }
+  out=$(VERIF_REPO="$wt" VERIF_SCRATCH="$sc" timeout 1500 ./vcheck run "$id" --tier quick 2>&1); code=$?
   if [ $code -eq 1 ] && echo "$out" | grep -q "^VIOLATION property=$id"; then
     echo "SELFTEST $p: DETECTED ($(echo "$out" | grep -m1 '  key='))"
   else
